@@ -544,7 +544,11 @@ fn run_bound(l: &[Sx]) -> Sx {
     };
     let nostop = opt("nostop").is_some();
     let upgrade0 = opt("upgrade0").is_some();
+    let short_last = opt("shortlast").is_some();
     let warm: Option<usize> = opt("warm").and_then(|m| m.get(1).and_then(|x| x.as_usize()));
+    // (burst k gap): before the measured phase, k short simultaneous connections to THIS server, then gap ms
+    // with no traffic at all (workers started on demand have nothing to do for a while)
+    let burst: Option<(usize, u64)> = opt("burst").and_then(|m| Some((m.get(1)?.as_usize()?, m.get(2)?.as_usize()? as u64)));
     let svc = configs().remove(1).sx;
     if let Some(k) = warm {
         // phase 0: a listen() that grows to k workers and leaves through its idle timeout
@@ -605,6 +609,25 @@ fn run_bound(l: &[Sx]) -> Sx {
         None => return sx::tagged("bobs", vec![sx::atom("no-server")]),
     }
     thread::sleep(Duration::from_millis(80));
+    if let Some((k, gap)) = burst {
+        let mut bs = Vec::new();
+        for _ in 0..k {
+            let a = addr.clone();
+            bs.push(thread::spawn(move || {
+                if let Some(mut c) = connect(&a) {
+                    c.set_timeout(Duration::from_millis(3000));
+                    let _ = c.write_all(b"{\"method\":\"org.varlink.service.GetInfo\"}\0");
+                    let mut b = [0u8; 4096];
+                    let _ = c.read(&mut b);
+                    thread::sleep(Duration::from_millis(150));
+                }
+            }));
+        }
+        for h in bs {
+            let _ = h.join();
+        }
+        thread::sleep(Duration::from_millis(gap));
+    }
     let t0 = Instant::now();
     let mut hs = Vec::new();
     for i in 0..n {
@@ -645,7 +668,8 @@ fn run_bound(l: &[Sx]) -> Sx {
                 }
             };
             if first.is_some() {
-                thread::sleep(Duration::from_millis(hold));
+                // (the last peer only needs to be served, not to stay)
+                thread::sleep(Duration::from_millis(if short_last && i + 1 == n { 100 } else { hold }));
             }
             conn.shutdown_write();
             drop(conn);
@@ -906,6 +930,10 @@ impl Suite for ListenSuite {
             cases.push(bound("unix", 1, 1, 2, 400, 60, vec![sx::tagged("upgrade0", vec![])], "upgraded-connection-holds-its-worker"));
             cases.push(bound("unix", 1, 2, 4, 300, 40, vec![sx::tagged("upgrade0", vec![])], "upgraded-connection-holds-its-worker"));
             cases.push(bound("unix", 1, 1, 3, 300, 40, vec![sx::tagged("warm", vec![sx::nat(3)])], "after-an-earlier-listen-with-a-larger-pool"));
+            // a burst, a quiet period, then a peer that stays for seconds and a second one late in its stay (workers
+            // started on demand have had every opportunity to go away; the second peer still needs one at once)
+            cases.push(bound("unix", 1, 4, 2, 5600, 5000, vec![sx::tagged("burst", vec![sx::nat(3), sx::nat(3000)]), sx::tagged("shortlast", vec![])], "after-a-burst-and-a-quiet-period"));
+            cases.push(bound("unix", 1, 4, 3, 400, 150, vec![sx::tagged("burst", vec![sx::nat(3), sx::nat(2600)])], "after-a-burst-and-a-quiet-period"));
             if ctx.thorough {
                 for _ in 0..12 {
                     let max = rng.range(1, 4);
@@ -922,6 +950,14 @@ impl Suite for ListenSuite {
                 }
             }
             return cases;
+        }
+        if ctx.prop == "C13" {
+            // a long-lived peer must not keep a later one waiting, also after the pool has seen a burst and a quiet period
+            cases.push(Case {
+                input: sx::tagged("listen-bound", vec![sx::atom("unix"), sx::nat(1), sx::nat(4), sx::nat(2), sx::nat(5600), sx::nat(5000),
+                    sx::tagged("burst", vec![sx::nat(3), sx::nat(3000)]), sx::tagged("shortlast", vec![])]),
+                tags: vec!["bound:after-a-burst-and-a-quiet-period".into()],
+            });
         }
         if ctx.prop == "C15" {
             // configuration x history matrix of the property
